@@ -161,6 +161,15 @@ PROPS = {
         "trusted_base": BASE_TRUST + ["the oracle observes panics through catch_unwind and non-termination through a 10 s per-call clock; memory safety is the compiler's (the crate is safe Rust apart from the byte casts of src/cast.rs)"],
         "assumptions": ["block decoders (BC, ASTC) and pixel conversions are total functions on fixed-size inputs; their totality is exercised by the oracle, and for the modelled ones follows from the models of C03/C04 being total"],
     },
+    "C15": {
+        "kernel_sample": 10,
+        "harness_timeout": 3000,
+        "rule": "implementation-only totality oracle in the debug and release builds: all 73 formats x 1500 (thorough 20000) rounds each: sizes drawn from {0,1,2,3,4,5,7,8,9,12,13,16,17,31,33,40}^2, the 12 input colour formats, f32 content with NaN, +-inf, -0, +-1e30, subnormals, 65504, >1, <0 at rates 0, 1/2, 1/5, 1/17, "
+                "quality {Fast, Normal, High, Unreasonable}, the 4 dithering modes, both error metrics, parallel on/off, writers that fail at a byte offset inside the output by returning an error or by accepting zero bytes; "
+                "verdict per call: Ok with exactly PixelInfo::surface_bytes bytes written; UnsupportedFormat for formats without encoder and nothing written; InvalidSize(multiple) with nothing written exactly for sizes that are not a multiple; an I/O error when the writer failed; anything else, a panic or a call not returning within 40 s is a violation",
+        "trusted_base": BASE_TRUST + ["panics are observed through catch_unwind, hangs through a watchdog thread"],
+        "assumptions": ["the BC encoders' internal float code (least squares, refinement loops) is not modelled; its totality is exercised, not proved"],
+    },
     "C19": {
         "kernel_sample": 150,
         "rule": "systematic sweep of headers: every valid DXGI code x 5 alpha modes, the 27 table FourCCs + 60 boundary/arbitrary u32 FourCCs, every mask row with every one-bit perturbation of its red mask, alpha mask and flags and every bit count; "
